@@ -43,4 +43,4 @@ class SrcRouterID(TLV):
         if len(data) == 4:
             return cls(value=str(netaddr.IPAddress(struct.unpack('!I', data)[0])))
         elif len(data) == 16:
-            return cls(value=str(netaddr.IPAddress(int(binascii.b2a_hex(data), 16))))
+            return cls(value=str(netaddr.IPAddress(int(binascii.b2a_hex(data), 16), 6)))
